@@ -18,7 +18,7 @@ CONSTANTS Modes,        \* subset of {"rb", "wal"}
 PStates == [rb  |-> <<"idle", "j_created", "j_synced", "page_written">>,
             wal |-> <<"idle", "w_locked", "frame_partial", "frame_commit">>]
 
-Ops == {"DBWrite", "DBWriteCkpt", "DBTruncate", "DBRemove", "DBRemoveRace", "JCreate", "JWrite", "JZeroHeader", "JTruncate", "JRemove",
+Ops == {"DBWrite", "DBWriteCkpt", "DBTruncate", "DBShrink", "DBRemove", "DBRemoveRace", "JCreate", "JWrite", "JZeroHeader", "JTruncate", "JRemove",
         "WCreate", "WHeader", "WFrame", "WTruncate", "WRemove", "WUnlockWrite", "Import", "ImportRace"}
 
 VARIABLES mode,      \* journal mode of the database
@@ -117,6 +117,7 @@ React(op) ==
     [] op = "DBWriteCkpt"  -> "eacces"        \* the same by a connection that holds the WAL checkpoint lock (a SQLite checkpointer's
                                               \* page write): the -shm locks give no authority over the database file
     [] op = "DBTruncate"   -> "harmless"      \* TruncateDatabase: only to the committed size (or refused)
+    [] op = "DBShrink"     -> "refused"       \* ftruncate / open(O_TRUNC) of the database below its committed size (to one page less, to nothing)
     [] op = "DBRemove"     -> "eacces"        \* RootNode.Remove: !IsPrimary
     [] op = "DBRemoveRace" -> "refused"       \* DB.Drop that began with authority and lost it before its final step: rolled back
     [] op = "JCreate"      -> "eacces"        \* CreateJournal: !Writeable
